@@ -12,36 +12,12 @@
    value or the documented default; so a disagreement between robsd-config and
    [spec_config] is a violation of the property, not a disagreement with the
    model of the code (that one runs on the regenerated tables). *)
+From Robsd Require Export Conf.ConfOracle.
 From Robsd Require Import Conf.ConfDefs Conf.ConfSpec Conf.DocSpec Conf.ConfTie Conf.ConfSound Conf.ConfComplete
   Conf.ConfDiag Conf.ConfReject Conf.ConfRdomain.
 From RobsdGen Require Import Gen_Conf.
 From Coq Require Import String.
 Local Open Scope string_scope.
-
-(* the words of the documented syntax: "yes | no", the time-out units "s, m or
-   h", the regress options, the step options, the list braces *)
-Definition doc_tokens : list tokrow := Eval vm_compute in [
-  mk_tokrow T_LBRACE (bs "{") None;
-  mk_tokrow T_RBRACE (bs "}") None;
-  mk_tokrow T_COMMAND (bs "command") (Some CANVAS);
-  mk_tokrow T_ENV (bs "env") (Some ROBSD_REGRESS);
-  mk_tokrow T_HOURS (bs "h") (Some ROBSD_REGRESS);
-  mk_tokrow T_MINUTES (bs "m") (Some ROBSD_REGRESS);
-  mk_tokrow T_NO (bs "no") None;
-  mk_tokrow T_NO_PARALLEL (bs "no-parallel") (Some ROBSD_REGRESS);
-  mk_tokrow T_OBJ (bs "obj") (Some ROBSD_REGRESS);
-  mk_tokrow T_PACKAGES (bs "packages") (Some ROBSD_REGRESS);
-  mk_tokrow T_PARALLEL (bs "parallel") (Some CANVAS);
-  mk_tokrow T_QUIET (bs "quiet") (Some ROBSD_REGRESS);
-  mk_tokrow T_ROOT (bs "root") (Some ROBSD_REGRESS);
-  mk_tokrow T_SECONDS (bs "s") None;
-  mk_tokrow T_TARGETS (bs "targets") (Some ROBSD_REGRESS);
-  mk_tokrow T_YES (bs "yes") None ].
-
-Definition doc_tables (m : mode) : tables :=
-  let G := tables_of m in
-  mk_tables m doc_tokens (doc_table m) (t_steps G) (t_argv G) (t_regress_script G) (t_canvas_end G)
-            doc_rdomain_first (doc_rdomain_last + 1) true (t_execdir_default G) (t_depth_limit G) true.
 
 (* the token table of the code is the documented one (rows without a literal never match) *)
 Lemma tokens_match_docs :
@@ -52,13 +28,6 @@ Lemma wf_tokens_gen m : wf_tokens (tables_of m) = true.
 Proof. destruct m; vm_compute; reflexivity. Qed.
 Lemma wf_tokens_doc m : wf_tokens (doc_tables m) = true.
 Proof. destruct m; vm_compute; reflexivity. Qed.
-
-(* robsd-config run on the documented tables *)
-Definition spec_config (E : env) (m : mode) (text : bytes) (vars : list bytes) (stdin : bytes) : cmdres :=
-  robsd_config E (doc_tables m) text vars stdin.
-
-Definition spec_accepts (E : env) (m : mode) (text : bytes) : bool :=
-  match config_parse E (doc_tables m) text with Accepted _ => true | Rejected _ => false end.
 
 (* the oracle reflects the specification *)
 Lemma spec_accepts_iff E m text :
